@@ -27,7 +27,7 @@ def _c04_status(bases, modes, seconds, manifolds, trackeds):
 PROPS["C04"] = dict(
   jobs=[
     dict(name="c04-equiv", entries=["harness_c04_equiv"], **_c04_common,
-         shards={"quick": _c04_equiv([B_TET], [0, 1], [0], [(0, 0), (2, 3)]) + _c04_equiv([B_LOWDIM], [1], [1], [(1, 1)]),
+         shards={"quick": _c04_equiv([B_TET], [0, 1], [0], [(0, 0), (2, 3)]) + _c04_equiv([B_LOWDIM], [1], [1], [(1, 1)]) + _c04_equiv([B_LOWDIM], [0, 1], [0], [(0, 0)]),
                  "thorough": _c04_equiv([B_TET, B_LOWDIM], [0, 1], [0, 1], [(0, 0), (1, 0), (2, 3), (3, 1), (4, 0)]) + _c04_equiv([B_TET2_FACE], [0, 1], [0], [(0, 0), (3, 5), (4, 1)])},
          bounds="two real meshes: deferred mode (fast on/off) + 1..2 deletions + collect_garbage vs. the same deletions performed immediately (fast on/off); every first victim (symbolic selector, 4 per query), "
                 "selected second victims; compared through int tag properties at symbolic probe indices: same survivors, same definitions up to renumbering, no pending deletions"),
